@@ -113,7 +113,7 @@ macro_rules! parts {
                 Tier::Thorough => &alpha_main,
             },
             depth: tier.pick(3, 4),
-            seconds: tier.pick(25.0, 1500.0),
+            seconds: tier.pick(45.0, 1500.0),
             validated: false,
             nontrivial: None,
         };
@@ -126,7 +126,7 @@ macro_rules! parts {
             },
             alphabet: &alpha_deep,
             depth: tier.pick(6, 7),
-            seconds: tier.pick(30.0, 2400.0),
+            seconds: tier.pick(60.0, 2400.0),
             validated: false,
             nontrivial: None,
         };
